@@ -64,6 +64,14 @@ def check_invariant_support(ctx, P, rule, eff):
 _ADDR = {}
 
 
+def is_api(f):
+    """callable by a user of the crate: nameable from outside (rustc's effective visibility `exported`: public and
+    re-exported along a public path).  Items that are merely `reachable` (public items of private modules) are not
+    nameable; whatever of them is really used is reached through the call graph."""
+    n = f.j.get("nameable")
+    return bool(f.exported if n is None else n)
+
+
 def addr_taken(P):
     """crate functions used as values (function items passed around): their callers are not all visible as calls"""
     k = id(P)
@@ -91,40 +99,49 @@ def addr_taken(P):
 
 
 def run_engine(P, roots, scope=None, invariants=(), inline_depth=3, max_inline_blocks=60, param_ranges=None, monotone=(),
-               field_ranges=None, propagate_params=False):
+               field_ranges=None, propagate_params=False, ret_ranges=None):
     """one analysis of the scope.  With propagate_params the run is repeated with the integer-parameter ranges
     observed at the call sites of the previous run (only for functions that cannot be called from outside the crate
     nor through a closure / function pointer), until the assumed ranges are confirmed by the run that used them."""
     if propagate_params:
+        # Narrowing iteration.  Round k analyses the scope under the ranges `assumed` (parameters) and `rets`
+        # (results); the ranges it observes at the call sites / exits are the candidates for round k+1.  A round whose
+        # observations lie inside what it assumed is self-confirming (the assumption is inductive): only the result of
+        # such a round is used.  Round 0 assumes nothing and is therefore always confirmed.
+        rounds = propagate_params if isinstance(propagate_params, int) and propagate_params > 1 else 3
         assumed = dict(param_ranges or {})
-        for _round in range(4):
-            A, eff = run_engine(P, roots, scope, invariants, inline_depth, max_inline_blocks, assumed, monotone, field_ranges, False)
+        rets = {}
+        best = None
+        for _round in range(rounds + 1):
+            A, eff = run_engine(P, roots, scope, invariants, inline_depth, max_inline_blocks, assumed, monotone, field_ranges, False, ret_ranges=rets)
             nxt = {}
             for (name, i), (lo, hi) in A.observed.items():
                 f = P.fns.get(name)
-                if f is None or f.exported or f.j.get("closure") or f.j.get("impl_trait") or name in addr_taken(P) or name in roots:
+                if f is None or is_api(f) or f.j.get("closure") or f.j.get("impl_trait") or name in addr_taken(P) or name in roots:
                     continue
                 nxt[(name, i)] = (lo, hi)
-            # confirmed when every assumed range contains what this run observed
-            ok = all(k in nxt and nxt[k][0] >= v[0] and nxt[k][1] <= v[1] for k, v in assumed.items())
-            if ok and _round > 0:
-                A.param_rounds = _round + 1
-                A.assumed_params = assumed
-                return A, eff
-            if _round == 0:
-                assumed = nxt
+            new_rets = dict(A.ret_observed)
+            confirmed = all(k in nxt and nxt[k][0] >= v[0] and nxt[k][1] <= v[1] for k, v in assumed.items()) and \
+                all(k in new_rets and new_rets[k][0] >= v[0] and new_rets[k][1] <= v[1] for k, v in rets.items() if k in A.ret_used)
+            A.param_rounds = _round + 1
+            A.assumed_params = dict(assumed)
+            A.param_confirmed = confirmed
+            if confirmed:
+                best = (A, eff)
+                if nxt == assumed and all(new_rets.get(k) == v for k, v in rets.items()):
+                    break
+                assumed, rets = nxt, new_rets
             else:
-                # weaken to the hull; drop what keeps moving
+                # not inductive: weaken towards what was observed and try again
                 assumed = {k: (min(v[0], nxt[k][0]), max(v[1], nxt[k][1])) for k, v in assumed.items() if k in nxt}
-        A, eff = run_engine(P, roots, scope, invariants, inline_depth, max_inline_blocks, param_ranges, monotone, field_ranges, False)
-        A.param_rounds = -1
-        A.assumed_params = dict(param_ranges or {})
-        return A, eff
+                rets = {k: (min(v[0], new_rets[k][0]), max(v[1], new_rets[k][1])) for k, v in rets.items() if k in new_rets}
+        return best
     eff = Effects(P)
     A = Analyzer(P, eff, invariants=list(invariants), inline_depth=inline_depth, max_inline_blocks=max_inline_blocks)
     A.monotone = list(monotone)
     A.field_ranges = dict(field_ranges or {})
     A.assumed_params = dict(param_ranges or {})
+    A.ret_ranges = dict(ret_ranges or {})
     A.param_rounds = 0
     A.scope = set(scope) if scope is not None else None
     if param_ranges:
